@@ -621,6 +621,12 @@ static int op_rq(int argc, char **argv, FILE *out) {
     if (l < 20)
         return 0;
     rq = newrequest();
+    if (!rq) { /* what every reader does: nothing to process with */
+        free(b);
+        fputs("ret=norq", out);
+        put_tail(out);
+        return 1;
+    }
     ord = h_rq_ordinal(rq);
     rq->buf = b;
     rq->buflen = l;
@@ -927,7 +933,27 @@ static int op_rewrite(int argc, char **argv, FILE *out) {
     return 1;
 }
 
+int h_rsp_op(const char *op, int argc, char **argv, FILE *out);
+/* fault <n> <op> <args..>: run the op with the n-th allocation made by the program (counted from 0) failing;
+   n = -1: count only. The inner op's line follows the prefix; the transcript names the site that failed. */
+static int op_fault(int argc, char **argv, FILE *out) {
+    long n;
+    int r;
+    if (argc < 2)
+        return 0;
+    n = atol(argv[0]);
+    fprintf(out, "fault ");
+    h_alloc_arm(n >= 0 ? n : 1L << 40, 0);
+    r = h_rsp_op(argv[1], argc - 2, argv + 2, out);
+    fprintf(out, " allocs:%ld", h_alloc_count());
+    h_alloc_arm(-1, 0);
+    if (!r)
+        fputs("bad-op", out);
+    return 1;
+}
+
 int h_rsp_op(const char *op, int argc, char **argv, FILE *out) {
+    if (!strcmp(op, "fault")) return op_fault(argc, argv, out);
     if (!strcmp(op, "cfg")) return op_cfg(argc, argv, out);
     if (!strcmp(op, "client")) return op_client(argc, argv, out);
     if (!strcmp(op, "rq")) return op_rq(argc, argv, out);
